@@ -697,6 +697,34 @@ def eval_config_only(case):
     return out
 
 
+def eval_libpass_produced(case):
+    """what a libpass hasher PRODUCES -- also from a salt crypt(3) itself would not write (blanks, ':' ...) -- its inspector
+    reads back: not None, the salt and cost it was made with, re-rendered to the same string"""
+    from libpass.hashers import sha_crypt as LS
+    from libpass.inspect import sha_crypt as IS
+
+    kind, salt, rounds = case["kind"], case["salt"], case["rounds"]
+    hz, info_cls = (LS.SHA256Hasher, IS.SHA256CryptInfo) if kind == "sha5" else (LS.SHA512Hasher, IS.SHA512CryptInfo)
+    key = f"C07|libpass_inspect:{kind}|produced:"
+    try:
+        h = hz(rounds=rounds).hash("pw", salt=salt)
+    except (ValueError, TypeError):
+        return []  # a salt the hasher does not take
+    try:
+        info = IS.inspect_sha_crypt(h, info_cls)
+    except Exception as e:  # noqa: BLE001
+        return [(key + f"raises:{type(e).__name__}", f"inspect_sha_crypt({h!r}) raised {e!r} on a hash the hasher just made")]
+    if info is None:
+        return [(key + "not_recognised", f"the inspector does not read {h!r}, which the hasher has just made from salt {salt!r}")]
+    out = []
+    if info.as_str() != h:
+        out.append((key + "as_str", f"inspect({h!r}).as_str() = {info.as_str()!r}"))
+    if info.salt != salt or (info.rounds or 5000) != rounds:
+        out.append((key + "fields", f"inspect({h!r}) reports salt {info.salt!r} / rounds {info.rounds!r}; made with {salt!r} / {rounds}"))
+    return out
+
+
+EVALS["libpass_produced"] = eval_libpass_produced
 EVALS["config_only"] = eval_config_only
 EVALS["configured_reader"] = eval_configured_reader
 
@@ -783,6 +811,10 @@ def run(ctx):
         cases.append({"part": "special", "hasher": name, "label": label, "hash": h, "password": p, "settings": st})
     for kind, label, s in libpass_strings(ctx.quick, ctx.seed):
         cases.append({"part": "libpass", "kind": kind, "label": label, "string": s})
+    for kind in ("sha5", "sha6"):
+        for salt in ("ab", "my salt", "user:realm", "tab\there", "a!b#c%d", " ", "x" * 16, ".", "a,b=c", "{x}", "a\\b", "'\"", "~", "@"):
+            for rounds in (1000, 5000, 5001):
+                cases.append({"part": "libpass_produced", "kind": kind, "label": f"salt={salt!r}", "salt": salt, "rounds": rounds})
     for v in phc_b64_values(ctx.quick):
         cases.append({"part": "phc_b64", "kind": "phc_b64", "label": f"len{len(v)}:{'ascii' if v.isascii() else 'non_ascii'}:{len(v.encode()) % 3}", "string": v})
     ctx.log(f"{len(cases)} cases")
